@@ -32,7 +32,8 @@ META = {
         " Round 8: scoped inline flags are modelled; the look-ahead is checked in both cases; the base scrubbers stop in front of '.', ';', ',' for every spelling alike."
         ' Round 9: scrub_aliquots returns only after half_plus_q and the intervener remover ran.'
         ' Round 10: the look-ahead that ends every aliquot scrubber accepts each element separator (comma, semicolon, line break, blank) and the end of text.'
-        ' Round 11: the half-plus-quarter callback is re-located by role after a rename / split.'),
+        ' Round 11: the half-plus-quarter callback is re-located by role after a rename / split.'
+        ' Round 12: a replacement callback of sub_scrubber rewrites every match (none is handed back unchanged); spaced-digit spellings are left neighbours in the glued-context sweep.'),
     'families': ['RX-LANG', 'TBL', 'FIXPOINT', 'ORDER', 'STRIPSET'],
 }
 
@@ -314,7 +315,7 @@ def _tables(ctx, base):
 def _glue(ctx, base):
     """Glued chains: each short spelling must be matched exactly where it
     stands when directly preceded / followed by another component."""
-    prevs = ['', 'N2', 'S/2', 'E½', 'NE4', 'SW/4', 'NW¼']
+    prevs = ['', 'N2', 'S/2', 'E½', 'NE4', 'SW/4', 'NW¼', 'N 2', 'SW 4', 'N / 2']      # (spaced digits are spellings too)
     nexts = ['', 'NE4', 'S2', ' of', ',']
     for comp, rv in base.items():
         L = common.lang(ctx, rv)
@@ -411,6 +412,7 @@ def _joiners(ctx):
     half_plus_q_contexts(ctx, ('NE¼', 'NW¼', 'SE¼', 'SW¼', 'N½', 'S½', 'E½', 'W½', ' of', ', less'))
     half_plus_q_contexts(ctx, ELEMENT_SEPARATORS)
     ctx.attempt(lookahead_accepts_separators)
+    ctx.attempt(scrubbers_rewrite_every_match)
     for s in ('NE', 'NENW', ' NE', 'of NE'):
         ctx.check(not Lh.search(s), 'RX-LANG-NEG', f"half_plus_q_regex needs a leading half: {s!r}",
                   detail_bad=f"a bare quarter {s!r} is treated as an aliquot without clean_qq",
@@ -525,3 +527,43 @@ def stripset(ctx, funcs, rule='STRIPSET'):
                                   where=common.loc(fi, c))
         if n == 0:
             ctx.ok(rule, f"{fi.qualname}: no strip with an argument")
+
+
+def scrubbers_rewrite_every_match(ctx):
+    """sub_scrubber replaces every match of a scrubber with its canonical
+    token.  A replacement callback that hands some matches back unchanged
+    (`return mo.group(0)` under a test on the neighbouring characters) leaves
+    those components raw: with the scrubbers running in a fixed order
+    ('SWNE' -> 'SW¼NE', NE was tried first and skipped) the text is neither
+    canonical nor a fixed point, and the chain yields no QQs."""
+    n = 0
+    for spec in ('tract_preprocess:sub_scrubber',):
+        try:
+            fi = ctx.repo.func(spec)
+        except AnalysisError:
+            continue
+        nested = {x.name: x for x in ast.walk(fi.node) if isinstance(x, ast.FunctionDef) and x is not fi.node}
+        for c in ast.walk(fi.node):
+            if not (isinstance(c, ast.Call) and ((dotted(c.func) == 're.sub' and len(c.args) >= 3)
+                                                 or (isinstance(c.func, ast.Attribute) and c.func.attr == 'sub' and len(c.args) >= 2
+                                                     and dotted(c.func) != 're.sub'))):
+                continue
+            repl = c.args[1] if dotted(c.func) == 're.sub' else c.args[0]
+            fn = nested.get(repl.id) if isinstance(repl, ast.Name) else repl if isinstance(repl, ast.Lambda) else None
+            if fn is None:
+                continue
+            n += 1
+            mo_name = fn.args.args[0].arg if fn.args.args else None
+            body_nodes = [fn.body] if isinstance(fn, ast.Lambda) else [r.value for r in ast.walk(fn) if isinstance(r, ast.Return) and r.value is not None]
+            unchanged = [b for b in body_nodes for x in ast.walk(b)
+                         if (isinstance(x, ast.Call) and isinstance(x.func, ast.Attribute) and x.func.attr == 'group'
+                             and isinstance(x.func.value, ast.Name) and x.func.value.id == mo_name
+                             and (not x.args or (isinstance(x.args[0], ast.Constant) and x.args[0].value == 0)) and x is b)
+                         or (isinstance(x, ast.Subscript) and isinstance(x.value, ast.Name) and x.value.id == mo_name
+                             and isinstance(x.slice, ast.Constant) and x.slice.value == 0 and x is b)]
+            ctx.check(not unchanged, 'FIXPOINT', f"{fi.qualname}: every match of a scrubber is rewritten to its token",
+                      detail_bad=f"the replacement callback returns the matched text unchanged on some path (`return {norm(unchanged[0])[:30] if unchanged else ''}`): "
+                                 f"components the scrubber recognised stay raw - 'SWNE' under clean_qq comes out as 'SW¼NE', which is not "
+                                 f"canonical, not a fixed point, and parses to no QQ",
+                      key=f"FIXPOINT|{fi.qualname}|callback-skips-matches", where=common.loc(fi, c))
+    return n
